@@ -262,6 +262,13 @@ func (e *Engine) verifyContract(c *Contract) (res *UnitResult) {
 	if len(x.assignedGlobals) > 0 {
 		u.oblige("frame:package-vars", "frame", "assigns package-level variables "+strings.Join(x.assignedGlobals, ","), fr.pos(fd.Pos()), "true", "false")
 	}
+	// an at-clause whose key matched no statement or call proves nothing: report it
+	for _, as := range c.Ats {
+		if !x.atHits[as] {
+			o := u.oblige("at["+normKey(as.Key)+"]:unmatched", "contract-stale", "at-clause key matches no statement or call of the function", fr.pos(fd.Pos()), "true", "false")
+			o.Clause = "contract-stale: at [" + as.Key + "] matches nothing in " + c.Key()
+		}
+	}
 	cov := u.oblige("vacuity:exit-reachable", "vacuity", "some execution reaches a normal exit", fr.pos(fd.Pos()), exit.pc, "true")
 	cov.ExpectSat = true
 	return
